@@ -95,6 +95,63 @@ def sym_checks(ctx, name, obj, vl, vt, freq, cj, tol, periodic_tol=None, shapes=
                     ctx.violate(f"{name}: the values for the subset {sub} differ from the all-keys values", cj, {"kind": "subset", "scatterer": name})
 
 
+def interface_checks(ctx, name, obj, freq, cj, tol):
+    """Every entry point of the `Scattering2d` interface returns the values of the plain call, whatever was asked of the
+    same object before: `as_single_freq_matrices` / `as_multi_freq_matrices` / `as_multi_freq_matrices_obj` with key
+    subsets requested in sequence (small subsets first, then the complementary ones, then all four, then again),
+    `as_angles_funcs`, `as_freq_angles_funcs`.  Reference: point-by-point scalar calls on the matrix grid [out, inc]."""
+    import itertools
+
+    import arim.scat as scat
+
+    rng = ctx.rng
+    n = int(rng.choice([4, 5, 7]))
+    th = scat.make_angles(n)
+    ref = {k: np.zeros((n, n), complex) for k in KEYS}
+    for j in range(n):
+        for i in range(n):
+            r1 = obj(float(th[i]), float(th[j]), freq)
+            for k in KEYS:
+                ref[k][j, i] = complex(np.asarray(r1[k]).ravel()[0])
+    scale = max(np.abs(ref[k]).max() for k in KEYS) + 1e-300
+    subs = [set(c) for m_ in range(1, 5) for c in itertools.combinations(KEYS, m_)]
+    order = [subs[int(i)] for i in rng.permutation(len(subs))[:6]]
+    order = sorted(order, key=len)[:3] + [set(KEYS) - order[0] or set(KEYS)] + [set(KEYS)] + [order[-1]]
+    freqs = [freq, freq * 1.25]
+    for sub in order:
+        ctx.count(f"{name}:matrices_subset{len(sub)}")
+        m = obj.as_single_freq_matrices(freq, n, to_compute=set(sub))
+        bad = [k for k in sub if k not in m or np.shape(m[k]) != (n, n) or np.abs(m[k] - ref[k]).max() > tol * scale]
+        if bad:
+            ctx.violate(f"{name}: as_single_freq_matrices(to_compute={sorted(sub)}) after the requests {[sorted(x) for x in order[:order.index(sub)]]} on the same object: "
+                        f"entries [out, inc] of {bad} are not the function values", dict(cj, numangles=n, sequence=[sorted(x) for x in order]), {"kind": "matrix_sequence", "scatterer": name})
+            return
+        mm = obj.as_multi_freq_matrices(freqs, n, to_compute=set(sub))
+        bad = [k for k in sub if k not in mm or np.shape(mm[k]) != (2, n, n) or np.abs(mm[k][0] - ref[k]).max() > tol * scale]
+        if bad:
+            ctx.violate(f"{name}: as_multi_freq_matrices(to_compute={sorted(sub)}): the first frequency slice of {bad} is not the function at that frequency",
+                        dict(cj, numangles=n, sequence=[sorted(x) for x in order]), {"kind": "matrix_sequence", "scatterer": name})
+            return
+    a, b = rng.uniform(-4, 4, size=5), rng.uniform(-4, 4, size=5)
+    r = obj(a, b, freq)
+    f1, f2 = obj.as_angles_funcs(freq), obj.as_freq_angles_funcs()
+    for k in KEYS:
+        if np.abs(f1[k](a, b) - r[k]).max() > tol * scale or np.abs(f2[k](a, b, freq) - r[k]).max() > tol * scale:
+            ctx.violate(f"{name}: as_angles_funcs / as_freq_angles_funcs ['{k}'] is not the '{k}' entry of the plain call", cj, {"kind": "funcs", "scatterer": name})
+            return
+    try:
+        data = obj.as_multi_freq_matrices_obj(freqs, n)
+        rd = data(a, b, freq)
+        ri = scat.interpolate_matrices if False else None
+        md = data.as_single_freq_matrices(freq, n) if hasattr(data, "as_single_freq_matrices") else None
+    except Exception as e:
+        ctx.violate(f"{name}: as_multi_freq_matrices_obj raised {type(e).__name__}: {str(e)[:80]}", cj, {"kind": "matrix_obj", "scatterer": name})
+        return
+    om = data.orig_matrices
+    if any(np.abs(np.asarray(om[k])[0] - ref[k]).max() > tol * scale for k in KEYS):
+        ctx.violate(f"{name}: as_multi_freq_matrices_obj does not hold the function values at the sampled frequency", cj, {"kind": "matrix_obj", "scatterer": name})
+
+
 def run(ctx):
     import arim
     import arim.scat as scat
@@ -118,6 +175,8 @@ def run(ctx):
         keep.append(("sdh", obj, vl, vt, freq, cj, obj(probe_a, probe_b, freq)))
         ctx.case(("sdh", vl, vt, freq, radius), True, sample=cj)
         sym_checks(ctx, "sdh", obj, vl, vt, freq, cj, 1e-9, sdh=True)
+        if _ % 3 == 0:
+            interface_checks(ctx, "sdh", obj, freq, cj, 1e-10)
         # correspondence of the modal sums
         alpha, beta, maxn, aLL, x, bTT = sdh_coefs(freq, radius, vl, vt)
         inc = rng.uniform(-2 * np.pi, 2 * np.pi, size=8)
@@ -129,6 +188,8 @@ def run(ctx):
         keep.append(("point", pt, vl, vt, freq, {"op": "point", "vl": vl, "vt": vt}, pt(probe_a, probe_b, freq)))
         ctx.case(("point", vl, vt), True)
         sym_checks(ctx, "point", pt, vl, vt, freq, {"op": "point", "vl": vl, "vt": vt}, 1e-12)
+        if _ % 3 == 1:
+            interface_checks(ctx, "point", pt, freq, {"op": "point", "vl": vl, "vt": vt}, 1e-12)
     for _ in range(3 * ctx.scale):
         vl = float(rng.uniform(5000, 6500))
         vt = float(vl * rng.uniform(0.48, 0.6))
@@ -144,6 +205,7 @@ def run(ctx):
         # exchange symmetries hold to rounding; periodicity only to 1e-5: basis_function switches between a series and a closed
         # form at |k| = 0.1 where the closed form loses about nine digits (conditioning of the implementation)
         sym_checks(ctx, "crack_centre", obj, vl, vt, freq, cj, 1e-9, periodic_tol=1e-5, shapes=False)
+        interface_checks(ctx, "crack_centre", obj, freq, cj, 1e-9)
         # optimised kernel vs general kernel on a matrix of angles
         th = scat.make_angles(9)
         inc2, out2 = scat.make_angles_grid(9)
